@@ -9,8 +9,8 @@ USES_FACTS = True
 DRIVER = "shootmodel_map"
 
 MANIFEST = dict(
-    text="Lean 4 theorems over parseCtors (parameter->field recovery composed with the C02 model of `shoot new`), makeCtorMatch with zero-value synthesis and the accessor pseudo-fields: every constructor argument is the zero literal or a justified value of a name-matched readable field, in parameter order (C15_ctor_args); no settable field is written twice, never after the constructor carried it (C15_set_once), and every settable field with an applicable name-matched partner that the constructor did not take is set exactly once (C15_set_exactly_once); every emitted statement applies C05's decision function to its two fields (C15_refines), accessor names match like the exported twin (C15_refines_partial); 4 finding regions with witness theorems (F_skipTagNew, F_ctorNoSub, F_ptrEmbedSetter, F_ctorArgNil: constructor arguments are read through nil embedded pointers unguarded), C15_hook_owned (a field a manual hook assigns is written by nobody else), 5 `_fixed` theorems on the witnesses of the repaired regions (set-only read, constructor priority, constructor tag, pointer-embed parameters, `any` zero value). Model tied to the code by rendering src/dest/both with unexported fields, generating real `shoot new -getset` output first, running `shoot map`, executing ToX/FromX and decoding every (unexported) leaf, plus per-leaf write counts from the generated text, the plain side partially nil (each embedded pointer / slice element in turn) and, per accessor-mode side, whether the generated constructor allocated every embedded pointer (ctoralloc keys: the assumption the constructor path of mapper.tmpl rests on); FromX is also observed on an existing and on a reused receiver (returned pointer = receiver, receiver holds the result).",
-    note="Lean kernel + standard axioms; accessor-mode types are flat or embed ONE level of flat accessor-mode types by value (promoted accessors, nested constructor literal); C15_refines / C15_set_exactly_once need `uniqueClaimable` (at most one claimable partner per field); which of several READING fields wins a written field (first in list order) and the leaf-level equality with the exported twin are asserted by the correspondence.",
+    text="Lean 4 theorems over parseCtors (parameter->field recovery composed with the C02 model of `shoot new`), makeCtorMatch with zero-value synthesis and the accessor pseudo-fields: every constructor argument is the zero literal or a justified value of a name-matched readable field, in parameter order (C15_ctor_args); no settable field is written twice, never after the constructor carried it (C15_set_once), and every settable field with an applicable name-matched partner that the constructor did not take is set exactly once (C15_set_exactly_once); every emitted statement applies C05's decision function to its two fields (C15_refines), accessor names match like the exported twin (C15_refines_partial) and so do constructor parameters (C15_param_names); 4 finding regions with witness theorems (F_skipTagNew, F_ctorNoSub, F_ptrEmbedSetter, F_ctorArgNil: constructor arguments are read through nil embedded pointers unguarded), C15_hook_owned (a field a manual hook assigns is written by nobody else), 5 `_fixed` theorems on the witnesses of the repaired regions (set-only read, constructor priority, constructor tag, pointer-embed parameters, `any` zero value). Model tied to the code by rendering src/dest/both with unexported fields, generating real `shoot new -getset` output first, running `shoot map`, executing ToX/FromX and decoding every (unexported) leaf, plus per-leaf write counts from the generated text, the plain side partially nil (each embedded pointer / slice element in turn) and, per accessor-mode side, whether the generated constructor allocated every embedded pointer (ctoralloc keys: the assumption the constructor path of mapper.tmpl rests on); FromX is also observed on an existing and on a reused receiver (returned pointer = receiver, receiver holds the result). Session 3: makeCtorMatch in CLOSED FORM (C15_ctor_closed: the constructor is used iff some parameter finds a value; parameter p carries the FIRST readable, name-matched field of a fitting type with strategy ctorStrat, else the zero literal - by a 'first attempt on a written name wins' lemma over the write-set fold), C15_ctor_follows_C05 (ctorStrat = C05's pairStrat wherever that is not a recursive mapping: the deviation is exactly F_ctorNoSub), C15_ctor_state_per_type (over the regenerated Generator field / assignment tables: nothing the constructor matching reads outlives a type - seeded change C15-14). Generator dimensions: unmatched constructor parameters of nil-able and alias types with nil told from empty (C15-13, C01-13), companion-first multi-type runs onto a shoot-new destination (C15-14).",
+    note="Lean kernel + standard axioms; accessor-mode types are flat or embed ONE level of flat accessor-mode types by value (promoted accessors, nested constructor literal); C15_refines / C15_set_exactly_once need `uniqueClaimable` (at most one claimable partner per field); which of several READING fields wins a written field (first in list order) and the leaf-level equality with the exported twin (the full refinement obs15 = spec15 in accessor mode; proved for plain sides as C05_obs_spec_counts) are asserted by the correspondence.",
     technique="Lean 4 proof (fold invariant of makeCtorMatch, write-set invariant) + differential execution through real accessors",
     design="5/C15")
 
